@@ -131,7 +131,8 @@ def run_check(prop, tier):
         out = os.path.join(bdir, "out.%s.txt" % name)
         env = B.env_for(bdir, run.get("san", "asan"))
         left = max(10.0, deadline - (time.time() - t0)) if deadline else 0
-        share = left / (len(runs) - ri) if deadline else 0
+        wsum = sum(r.get("weight", 1) for r in runs[ri:])
+        share = left * run.get("weight", 1) / wsum if deadline else 0
         cmd = engine_cmd(exe, run, tier, out, ["--workers", str(run.get("workers", NCPU)), "--deadline", "%.0f" % share,
                                                "--case-timeout", str(run.get("case_timeout", 30))])
         r = subprocess.run(cmd, env=env, stdout=subprocess.PIPE, stderr=subprocess.STDOUT, text=True)
